@@ -619,4 +619,28 @@ theorem parseAll_append (x y : List Str) :
       simp only [ih]
       cases parseAll cs <;> cases parseAll y <;> simp
 
+/-! ## 5. constructors -/
+
+theorem ofSpecs_ok {ms : List Member} {p : Option Bool} {T : SpecSet} (h : ofSpecs ms p = .ok T) :
+    T = ⟨fromList ms, p⟩ ∧ ∀ m ∈ ms, m.1.canonical.isOk = true := by
+  unfold ofSpecs at h
+  split at h
+  · rename_i hall
+    refine ⟨by injection h with h; exact h.symm, ?_⟩
+    simpa using hall
+  · cases h
+
+theorem ofString_ok {s : Str} {p : Option Bool} {T : SpecSet} (h : ofString s p = .ok T) :
+    ∃ sps, parseAll (clauses s) = some sps ∧ T = ⟨fromList (sps.map fun sp => (sp, none)), p⟩ ∧
+      ∀ sp ∈ sps, sp.canonical.isOk = true := by
+  unfold ofString at h
+  split at h
+  · cases h
+  · rename_i sps hs
+    obtain ⟨hT, hc⟩ := ofSpecs_ok h
+    refine ⟨sps, hs, hT, ?_⟩
+    intro sp hsp
+    exact hc (sp, none) (List.mem_map.mpr ⟨sp, hsp, rfl⟩)
+
+
 end SSet
